@@ -12,6 +12,8 @@ from . import rules_hash as RH
 from . import rules_bits as RBI
 from . import rules_str as RST
 from . import rules_parse as RP
+from . import rules_width as RW
+from . import rules_attr as RAT
 from . import rules_holder as RHO
 from . import rules_tree as RT
 
@@ -81,6 +83,7 @@ def C05(ctx):
 def C04(ctx):
     u = need_unit(ctx, "slab")
     RS.check_C04(ctx, u)
+    RAT.check_attr_contracts(ctx, u, ["frg::slab_pool", "frg::slab_allocator"])
     return ("Every failure point of C04 is a call site: each Policy::map result, each _construct_* result in allocate() "
             "and the inner allocate() of realloc() is tested before use and its null arm returns null with no write to "
             "pool state and no call. Not decided: that later requests succeed (liveness over a history).")
@@ -97,6 +100,7 @@ def C11(ctx):
     RQ.check_qs_leave_deferred(ctx, u)
     RQ.check_qs_deferred_owed(ctx, u)
     RQ.check_qs_full_fences(ctx, u)
+    RW.check_widths(ctx, u, ["frg::qs_agent", "frg::qs_domain"])
     return ("Structural clauses of C11: the domain mutex guard releases through unlock(); counter/ack-count/agent-count "
             "writes are under the domain mutex; run() unlinks and resets the node before the callback and never touches "
             "it afterwards; callback only under acquire-loaded counter >= target; both barrier functions use the same "
@@ -107,6 +111,7 @@ def C11(ctx):
 def C10(ctx):
     u = need_unit(ctx, "radix")
     RR.check_C10(ctx, u)
+    RW.check_widths(ctx, u, ["frg::rcu_radixtree"])
     return ("Publication-order half of C10: release on every store a reader can see, acquire on every load in find(), fresh "
             "nodes completely initialised (header, all 16 link slots, value, old subtree linked) before the publishing store "
             "and never written afterwards, value constructed before its mask bit, erase clears a bit and frees nothing, find "
@@ -116,6 +121,7 @@ def C10(ctx):
 def C09(ctx):
     u = need_unit(ctx, "radix")
     RR.check_C09(ctx, u)
+    RW.check_widths(ctx, u, ["frg::rcu_radixtree"])
     ctx.rule("K.stale-derived", "in the radix tree a value loaded through the cursor node (mask, index, child) is not used "
              "after the cursor moved to another node without being reloaded", 4)
     RL.check_stale_derived(ctx, "K.stale-derived", [f for f in u.functions if (f.owner_cls or "").startswith("frg::rcu_radixtree")])
@@ -144,6 +150,7 @@ def C13(ctx):
     RO.check_grow_then_read_arg(ctx, u, ["frg::vector", "frg::small_vector"])
     RO.check_built_into_kept_storage(ctx, u, ["frg::vector", "frg::small_vector"])
     RO.check_raw_storage_moves(ctx, u, ["frg::small_vector"])
+    RW.check_countdowns(ctx, u, ["frg::vector", "frg::small_vector", "frg::dyn_array"])
     return ("Structural clauses of C13: emptiness polarity, front/back subscripts, swap completeness, relocation ranges "
             "in growth, forwarded arguments consumed once, intrusive list link protocol. Not decided: equality with a "
             "reference sequence after arbitrary histories.")
@@ -170,6 +177,7 @@ def C16(ctx):
     RO.check_destroy_before_free(ctx, uo, ["frg::unique_ptr"], rule="O4.destroy-before-free")
     RO.check_allocator_stable(ctx, uo, ["frg::unique_ptr"])
     RO.check_move_assign_releases(ctx, uo, ["frg::unique_ptr"])
+    RO.check_detach_before_destroy(ctx, uo, ["frg::unique_ptr"])
     ctx.rule("R.forward-once", "an argument forwarded as an rvalue is consumed at most once per activation: never inside a loop body", 1)
     RO.check_forward_once_fns(ctx, us, {"frg::construct_n"})
     RO.check_relocation(ctx, us, ["frg::vector", "frg::small_vector"])
@@ -202,6 +210,9 @@ def C14(ctx):
     RH.check_C14(ctx, u)
     RH.check_trailing_pointer(ctx, u)
     RH.check_next_after_relink(ctx, u)
+    RW.check_widths(ctx, u, ["frg::hash_map"])
+    RO.check_init_reads(ctx, u, ["frg::hash_map"])
+    RO.check_members_by_value(ctx, u, ["frg::hash_map"])
     ctx.rule("O7.no-use-after-release", "a chain node is not accessed after frg::destruct released it (remove() moves the "
              "value out first; the destructor and rehash read `next` first)", 2)
     RO.check_no_use_after_release(ctx, u, [f for f in u.functions if f.owner_cls == "frg::hash_map"])
@@ -231,8 +242,10 @@ def C15(ctx):
     RST.check_views(ctx, u)
     RST.check_cstring_params(ctx, u)
     RST.check_free_after_copies(ctx, u)
+    RST.check_byte_counts(ctx, u)
     RG.check_swap(ctx, u, ["frg::basic_string"])
     RO.check_empty(ctx, u, ["frg::basic_string"])
+    RO.check_grow_then_read_arg(ctx, u, ["frg::basic_string"], elem_types=("char", "char16_t", "wchar_t", "char32_t"))
     if ctx.tier == "thorough":
         u2 = need_unit(ctx, "string", extra_flags=("-DFRG_VERIF_WIDE",), tag="wide")
         RST.check_string_buffers(ctx, u2, tag=" [char16_t]", only_chart="char16_t")
@@ -271,6 +284,7 @@ def C20(ctx):
     RP.check_float_lengths(ctx, uf)
     RP.check_digits_length(ctx, uf)
     RP.check_star_width(ctx, uf)
+    RW.check_widths(ctx, uf, ["frg::"])
     RP.check_sized_text(ctx, uf)
     RP.check_grouping_cursor(ctx, uf)
     ctx.rule("R.self-recursion", "no parser or helper calls itself on every path", 0)
@@ -294,6 +308,8 @@ def C19(ctx):
     RP.check_fmt_spec(ctx, uf)
     RP.check_sized_text(ctx, uf)
     RP.check_field_layout(ctx, uf)
+    RP.check_directive_state(ctx, uf)
+    RW.check_widths(ctx, uf, ["frg::"])
     ctx.rule("B6.fmt-width-range", "the {}-spec parser rejects a width before the step that would overflow it (so an "
              "out-of-range width makes the spec malformed and it is echoed unchanged)", 1)
     RST.check_accumulation(ctx, "B6.fmt-width-range", [f for f in uf.functions if f.name == "parse_fmt_spec"][:1], strict_unsigned=True)
@@ -319,6 +335,8 @@ def C17(ctx):
     RHO.check_tuple_access(ctx, u)
     RHO.check_returns(ctx, u, [f for f in u.functions if (f.owner_cls or "") in HOLDERS])
     RHO.check_copy_selects_copy(ctx, u)
+    RHO.check_brace_assign(ctx, u)
+    RHO.check_emplace_direct_init(ctx, u, ["frg::optional", "frg::manual_box", "frg::eternal"])
     RO.check_forward_collapsed(ctx, u, [f for f in u.functions if f.uq.startswith("frg::")])
     RO.check_move_through_reference_member(ctx, u, [f for f in u.functions if f.uq.startswith("frg::_tuple::") or f.uq.startswith("frg::tuple")])
     RHO.check_holder_specials(ctx, u, HOLDERS)
@@ -333,6 +351,7 @@ def C01(ctx):
     u = need_unit(ctx, "slab", w1=True)
     RS2.check_C01(ctx, u)
     RS2.check_size_arithmetic(ctx, u)
+    RW.check_widths(ctx, u, ["frg::slab_pool"], masks=True)
     return ("Structural clauses of C01: size-class arithmetic as compiler-evaluated static_asserts for every size in three "
             "configurations; one frame look-up expression whose alignment equals the constructors' placement alignment; slab "
             "carving (overhead a multiple of the item size covering the header, objects at address+k*item_size below length); "
@@ -346,6 +365,7 @@ def C02(ctx):
     RS2.check_stale_after_remove(ctx, u)
     RS2.check_bucket_of_slab(ctx, u)
     RS2.check_counter_balance(ctx, u)
+    RW.check_widths(ctx, u, ["frg::slab_pool"])
     return ("Structural clauses of C02: null/zero special cases and null tests before any header dereference; copy-then-free "
             "order and provenance of the copy length in realloc's fallback; in-place success only when the size fits; a new slab "
             "only when the bucket has no head; full-test before push and re-insertion in free. Not decided: byte equality of "
@@ -355,6 +375,7 @@ def C02(ctx):
 def C03(ctx):
     u = need_unit(ctx, "slab")
     RS2.check_C03(ctx, u)
+    RW.check_widths(ctx, u, ["frg::slab_pool"])
     return ("Structural clauses of C03: map length == recorded reservation, map result == recorded base; single unmap site fed "
             "from those two header fields read before poisoning and reached only for large frames; one page-accounting "
             "expression for increments and the decrement; poison/unpoison ordering around every construction, link write and "
@@ -364,6 +385,8 @@ def C03(ctx):
 def C06(ctx):
     u = need_unit(ctx, "trees")
     RT.check_C06(ctx, u)
+    RO.check_init_reads(ctx, u, ["frg::_redblack::tree_struct", "frg::_redblack::tree_crtp_struct", "frg::_redblack::hook_struct"])
+    RO.check_members_by_value(ctx, u, ["frg::_redblack::tree_struct"], min_fields=1)
     return ("Structural clauses of C06: mirror symmetry of every left/right case split of the red-black tree, hook reset on "
             "removal, parent/child and predecessor/successor pairing of link writes, the descent rules of both insert variants, "
             "loop progress. Not decided: validity of the colouring / height bound, in-order walk equals contents (global shape "
@@ -381,6 +404,8 @@ def C07(ctx):
 def C08(ctx):
     u = need_unit(ctx, "trees")
     RT.check_C08(ctx, u)
+    RO.check_init_reads(ctx, u, ["frg::_pairing::pairing_heap"])
+    RO.check_members_by_value(ctx, u, ["frg::_pairing::pairing_heap"], min_fields=1)
     return ("Structural clauses of C08: merge symmetry and winner, hook resets in pop/remove, backlink pairing, detaching "
             "before merging in _collapse, accessor polarity, loop progress. Not decided: top() is a maximum after any history "
             "(heap order is a global shape invariant).")
